@@ -137,7 +137,7 @@ def synthetic_records():
         for j in range(1, 5):
             R[cell(i, j, 6) - 1] = 1
     ring = [cell(i, j, 6) for i in range(1, 5) for j in range(1, 5) if i in (1, 4) or j in (1, 4)]
-    base = dict(id=899998, kind="hdc", exc="", shape=[6, 6], R=R, sets=[ring], offgrid=0, ragged=False,
+    base = dict(id=899998, kind="hdc", exc="", freshsame=True, shape=[6, 6], R=R, sets=[ring], offgrid=0, ragged=False,
                 isarray=True, arrshape=[12, 2], resorted=list(ring))
     R2 = [0] * 45
     a = [cell(i, j, 9) for i in range(0, 3) for j in range(0, 3)]
@@ -146,7 +146,7 @@ def synthetic_records():
         R2[c - 1] = 1
     a_b = [c for c in a if c != cell(1, 1, 9)]        # block at the grid corner: only its centre is interior
     b_b = [c for c in b if c not in (cell(3, 6, 9), cell(3, 7, 9))]  # row 4 and column 8 are on the grid border
-    multi = dict(id=899997, kind="hdc", exc="", shape=[5, 9], R=R2, sets=[a_b, b_b], offgrid=0, ragged=False,
+    multi = dict(id=899997, kind="hdc", exc="", freshsame=True, shape=[5, 9], R=R2, sets=[a_b, b_b], offgrid=0, ragged=False,
                  isarray=False, arrshape=[0, 0], resorted=[])
     # one region with a hole: 7 x 7 grid without its centre; outer ring + the 8 cells around the hole, ONE set
     R3 = [1] * 49
@@ -154,7 +154,7 @@ def synthetic_records():
     outer = [cell(i, j, 7) for i in range(7) for j in range(7) if i in (0, 6) or j in (0, 6)]
     inner = [cell(i, j, 7) for i in range(2, 5) for j in range(2, 5) if (i, j) != (3, 3)]
     both = sorted(outer + inner)
-    hole = dict(id=899995, kind="hdc", exc="", shape=[7, 7], R=R3, sets=[both], offgrid=0, ragged=False,
+    hole = dict(id=899995, kind="hdc", exc="", freshsame=True, shape=[7, 7], R=R3, sets=[both], offgrid=0, ragged=False,
                 isarray=True, arrshape=[32, 2], resorted=list(both))
     srt = dict(id=899996, kind="sort", exc="", inp=[[0, 0], [1000000, 0], [1000000, 1000000], [0, 1000000],
                                                      [500000, 1500000], [0, 0]],
@@ -182,6 +182,7 @@ def self_test(ctx):
     var("OneSetPerRegion", base, sets=[s0[: len(s0) // 2], s0[len(s0) // 2:]], isarray=False)
     # the behaviour before fix 87ce4d1: outer and inner boundary of ONE region as two sets
     var("OneSetPerRegion", hole, sets=[outer, inner], isarray=False, arrshape=[0, 0], resorted=[])
+    var("EqualsFreshModel", base, freshsame=False)
     var("SingleIs2DArray", base, isarray=False)
     var("SingleIs2DArray", base, arrshape=[2, len(s0)])
     var("OrderIsLineSorter", base, sets=[s0[1:] + s0[:1]] if s0[1:] + s0[:1] != base["resorted"] else [s0[::-1]])
@@ -262,6 +263,9 @@ def run(ctx):
     # bi-modal conditionals (U-shaped beta moving with the given): tilted parallel bands whose
     # bounding boxes overlap
     cases += H.band_cases(np.random.default_rng(ctx.seed * 17 + 3), ctx.pick(10, 60))
+    # model histories (contour, in-place change of the model object, contour on the same grid): the coordinates
+    # belong to the model as it is
+    cases += H.history_cases(vc, np.random.default_rng(ctx.seed * 29 + 8), cfgs, ctx.pick(5, 40))
     # integer-typed grids (int / np.int64 limits, int or mixed cell sizes): the returned coordinates must still
     # be the centres of the boundary cells
     cases += H.integer_grid_cases(vc, np.random.default_rng(ctx.seed * 23 + 6), cfgs, ctx.pick(6, 40))
